@@ -33,8 +33,16 @@ SPECS = [
     Spec(GROUP, "dep_atr_lr", F, "ATR_REQ_RES.lr", [], binds=[("self.pp", "pp", INT)]),
     Spec(GROUP, "dep_atr_req_len", F, "ATR_REQ.__len__", [], binds=[("self.gb", "gb", BYTES)]),
     Spec(GROUP, "dep_atr_req_encode", F, "ATR_REQ.encode", [], binds=_ATRQ),
+    Spec(GROUP, "dep_atr_req_decode", F, "ATR_REQ.decode", [("data", BYTES)],
+         records={"ATR_REQ": {"nfcid3": BYTES, "did": INT, "bs": INT, "br": INT, "pp": INT, "gb": BYTES}},
+         ret=OPT(REC("ATR_REQ")),
+         note="the result is the tuple of constructor arguments (None: the code octets do not match)"),
     Spec(GROUP, "dep_atr_res_len", F, "ATR_RES.__len__", [], binds=[("self.gb", "gb", BYTES)]),
     Spec(GROUP, "dep_atr_res_encode", F, "ATR_RES.encode", [], binds=_ATRS),
+    Spec(GROUP, "dep_atr_res_decode", F, "ATR_RES.decode", [("data", BYTES)],
+         records={"ATR_RES": {"nfcid3": BYTES, "did": INT, "bs": INT, "br": INT, "to": INT, "pp": INT, "gb": BYTES}},
+         ret=OPT(REC("ATR_RES")),
+         note="the result is the tuple of constructor arguments (None: the code octets do not match)"),
     Spec(GROUP, "dep_atr_res_wt", F, "ATR_RES.wt", [], binds=[("self.to", "to", INT)]),
     # ---- PSL
     Spec(GROUP, "dep_psl_req_encode", F, "PSL_REQ.encode", [],
@@ -151,6 +159,16 @@ for _cls in ("DSL_REQ", "DSL_RES", "RLS_REQ", "RLS_RES"):
         Spec(GROUP, "dep_%s_encode" % _cls.lower(), F, "DSL_REQ_RES.encode", [], via=_cls,
              binds=[("self.did", "did", OPT(INT))], note="as inherited by %s" % _cls),
     ]
+_PFB = {"fmt": INT, "nad": BOOL, "did": BOOL, "pni": INT}
+for _cls in ("DEP_REQ", "DEP_RES"):
+    SPECS += [
+        Spec(GROUP, "dep_%s_decode" % _cls.lower(), F, "DEP_REQ_RES.decode", [("data", BYTES)], via=_cls,
+             records={"DEP_REQ_RES": {"pfb": REC("PFB"), "did": OPT(INT), "nad": OPT(INT), "data": BYTES}, "PFB": _PFB},
+             ret=OPT(REC("DEP_REQ_RES")),
+             note="as inherited by %s; the result is the tuple of constructor arguments ((fmt, nad, did, pni), did, nad, "
+                  "data), None when the code octets do not match; the caller's bytearray (mutated by `del`/`pop`) is "
+                  "not modelled" % _cls),
+    ]
 _FMT_I = [("res.pfb.fmt", "fmt", INT)]
 SPECS += [
     # ---- PDU type checks of the exchange loops (constants `DEP_RES.PositiveAck` .. re-read from the class)
@@ -165,6 +183,12 @@ SPECS += [
     Spec(GROUP, "dep_ini_atn_chk", F, "Initiator.send_dep_req_recv_dep_res.request_attention", [],
          path=[(1, "body")], stmts=(3, 5), binds=_FMT_I,
          note="cut: the two checks of the response to an attention request"),
+    Spec(GROUP, "dep_ini_retrans_chk", F, "Initiator.send_dep_req_recv_dep_res.request_retransmission", [],
+         path=[(1, "body")], stmts=(3, 7), binds=_FMT_I + [("req.pfb.fmt", "reqfmt", INT)],
+         note="cut: the checks of the response to a NACK: no RTOX; INF, and ACK only when the outstanding request was chained"),
+    Spec(GROUP, "dep_tgt_ack_chk", F, "Target.exchange", [("more", BOOL)], path=[(4, "orelse"), (1, "body")], stmts=[5],
+         binds=[("req.pfb.fmt", "fmt", INT)],
+         note="cut: send loop, a chained response must be answered with ACK (`is not` on the int constant is `!=`)"),
     Spec(GROUP, "dep_ini_tox_test", F, "Initiator.exchange", [], path=[(4, "body")], stmts=[4],
          expr="res.pfb.fmt == DEP_RES.TimeoutExtension", binds=_FMT_I, note="cut: the timeout extension test of the send loop"),
     Spec(GROUP, "dep_ini_more_test", F, "Initiator.exchange", [], stmts=[7],
@@ -172,6 +196,16 @@ SPECS += [
     Spec(GROUP, "dep_tgt_more_test", F, "Target.exchange", [], stmts=[6],
          expr="req.pfb.fmt == DEP_REQ.MoreInformation", binds=[("req.pfb.fmt", "fmt", INT)],
          note="cut: the receive loop condition"),
+    # ---- duplicate detection of the Target (send_dep_res_recv_dep_req), the DEP_REQ branch of the dispatch chain
+    Spec(GROUP, "dep_tgt_dep_dispatch", F, "Target.send_dep_res_recv_dep_req",
+         [("res", OPT(INT)), ("dep_res", OPT(INT)), ("dep_req", OPT(INT)), ("req", INT)],
+         path=[(3, "body"), (1, "orelse"), (0, "orelse"), (0, "orelse"), (0, "orelse"), (0, "body")], stmts=[0],
+         binds=[("req.pfb.fmt", "fmt", INT), ("req.pfb.pni", "rpni", INT), ("self.pni", "pni", INT),
+                ("dep_res.pfb.fmt", "dep_res_fmt", INT), ("self.did", "did", OPT(INT)), ("self.nad", "nad", OPT(INT))],
+         opaque={"ATN": ("mkatn", [OPT(INT), OPT(INT)], OPT(INT), False)}, result=["res", "dep_req"],
+         note="cut: the if/elif chain under `elif type(req) == DEP_REQ:` (ATN / NAK / RTOX / same PNI / new request); "
+              "PDU objects are opaque tokens (`res`, `dep_res`, `dep_req` optional ints, `req` an int), the local "
+              "function ATN is the parameter `mkatn`; result (res, dep_req)"),
     # ---- NFCID3 of the Target and its SENSF_RES
     Spec(GROUP, "dep_tgt_nfcid3", F, "Target.activate", [], stmts=[5],
          opaque={"os.urandom": ("urandom", [INT], BYTES, False)}, result=["nfcid3t"],
@@ -186,16 +220,21 @@ BRIDGE = {
     "theorems": [P + t for t in (
         "atr_lr_bridge", "atr_lr_total", "atr_lr_activate", "atr_res_wt_bridge", "atr_res_wt_total",
         "atr_req_len_bridge", "atr_res_len_bridge", "atr_req_encode_bridge", "atr_req_encode_activate", "atr_res_encode_bridge",
-        "atr_res_encode_activate", "psl_req_encode_bridge", "psl_req_encode_activate", "psl_res_encode_bridge", "psl_req_dsi_bridge",
-        "psl_req_dri_bridge", "psl_req_dsi_brty", "psl_req_dsi_dri_selected", "psl_req_lr_bridge", "dsl_encode_bridge",
-        "dsl_encode_overflow", "dsl_decode_bridge", "dsl_decode_other", "gen_dsl_decode_safe", "ini_opts_bridge",
+        "atr_res_encode_activate", "atr_req_decode_bridge", "atr_res_decode_bridge", "atr_decode_other", "atr_decode_model",
+        "gen_atr_decode_safe", "atr_req_fields_peer", "atr_res_fields_peer", "atr_req_decode_activate", "atr_res_decode_activate",
+        "atr_decode_short_model_differs", "atr_req_roundtrip", "psl_req_encode_bridge", "psl_req_encode_activate", "psl_res_encode_bridge",
+        "psl_req_dsi_bridge", "psl_req_dri_bridge", "psl_req_dsi_brty", "psl_req_dsi_dri_selected", "psl_req_lr_bridge",
+        "dsl_encode_bridge", "dsl_encode_overflow", "dsl_decode_bridge", "dsl_decode_other", "gen_dsl_decode_safe",
+        "dep_decode_bridge", "dep_decode_other", "gen_dep_decode_safe", "tail_eq_genTail", "ini_opts_bridge",
         "ini_ppi_bridge", "ini_psl_req_bridge", "ini_psl_req_activate", "ini_wt_bridge", "ini_wt_activate",
         "ini_miu_bridge", "ini_miu_activate", "ini_miu_c04", "tgt_opts_bridge", "tgt_pp_bridge",
         "tgt_miu_bridge", "tgt_miu_c04", "tgt_miu_activate", "tgt_cmd_bridge", "ini_chunk_bridge",
         "gen_ini_chunk_sound", "tgt_chunk_bridge", "tgt_chunk_rest_bridge", "ini_pni_send_bridge", "ini_pni_recv_bridge",
         "tgt_pni_bridge", "call_sites_bridge", "ini_rtox_bridge", "gen_ini_rtox_safe", "tgt_rtox_bridge",
         "gb_cut_bridge", "ini_nfcid3_212_bridge", "ini_ack_chk_bridge", "ini_inf_chk_bridge", "ini_nak_chk_bridge",
-        "ini_atn_chk_bridge", "fmt_tests_bridge", "tgt_nfcid3_bridge", "tgt_sensf_bridge", "nfcid3_212_roundtrip")],
+        "ini_atn_chk_bridge", "fmt_tests_bridge", "ini_retrans_chk_bridge", "tgt_ack_chk_bridge", "tgt_send_step_bridge",
+        "ini_send_step_bridge", "ini_recv_step_bridge", "tRxActive_dep_eq", "tgt_dep_dispatch_bridge", "gen_tgt_duplicate_resent",
+        "tgt_nfcid3_bridge", "tgt_sensf_bridge", "nfcid3_212_roundtrip")],
     "properties": ["C04", "C07", "C19"],
 }
 
@@ -228,10 +267,49 @@ def inputs(rng, sp):
                    "dep_ini_more_test", "dep_tgt_more_test"):
         for fmt in range(-1, 17):
             out.append(([], [fmt]))
+    if sp.lean in ("dep_atr_req_decode", "dep_atr_res_decode"):
+        code = b"\xD4\x00" if "req" in sp.lean else b"\xD5\x01"
+        for n in list(range(0, 22)) + [40, 64]:
+            for _ in range(4):
+                d = bytearray(code + bytes(rng.randrange(256) for _ in range(n)))
+                if len(d) >= 17 and rng.random() < 0.5:
+                    d[15 if "req" in sp.lean else 16] = rng.choice([0x00, 0x02, 0x32, 0x30])
+                out.append(([bytes(d)], []))
+        out.append(([b"\xD4\x06" + bytes(20)], []))
+        out.append(([b""], []))
+    if sp.lean in ("dep_dep_req_decode", "dep_dep_res_decode"):
+        code = b"\xD4\x06" if "req" in sp.lean else b"\xD5\x07"
+        for pfb in list(range(0, 16)) + [0x10, 0x14, 0x18, 0x1C, 0x40, 0x4F, 0x80, 0x90, 0xFF]:
+            for n in (0, 1, 2, 3, 5):
+                out.append(([code + bytes([pfb]) + bytes(rng.randrange(256) for _ in range(n))], []))
+        out.append(([code], []))
+        out.append(([b"\xD4\x08\x00"], []))
+    if sp.lean in ("dep_dep_req_encode", "dep_dep_res_encode"):
+        for fmt in (0, 1, 4, 5, 8, 9, 15, 16):
+            for hn in (False, True):
+                for hd in (False, True):
+                    for pni in (0, 1, 3):
+                        out.append(([], [(fmt, hn, hd, pni), rng.choice([0, 7, 255, 256]), rng.choice([0, 9, 255]),
+                                         bytes(rng.randrange(256) for _ in range(rng.randrange(4)))]))
+    if sp.lean == "dep_ini_retrans_chk":
+        for fmt in range(-1, 11):
+            for rf in (0, 1, 4):
+                out.append(([], [fmt, rf]))
+    if sp.lean == "dep_tgt_ack_chk":
+        for fmt in range(0, 10):
+            for more in (False, True):
+                out.append(([more], [fmt]))
     if sp.lean == "dep_ini_ack_chk":
         for fmt in range(0, 10):
             for sd in (b"", b"\x00", b"ab"):
                 out.append(([sd], [fmt]))
+    if sp.lean == "dep_tgt_dep_dispatch":
+        for fmt in (0, 1, 4, 5, 8, 9, 2):
+            for rpni in (0, 1):
+                for pni in (0, 1):
+                    for dep_res in (None, 77):
+                        for drf in (0, 9):
+                            out.append(([rng.choice([None, 5]), dep_res, None, 42], [fmt, rpni, pni, drf, None, None]))
     if sp.lean == "dep_tgt_sensf":
         for n in (0, 5, 8, 10, 12):
             out.append(([bytes(rng.randrange(256) for _ in range(n))], []))
@@ -314,6 +392,24 @@ MUTATIONS = [
     ("dep_ini_inf_chk", "or instead of and", "if ((res.pfb.fmt != DEP_RES.LastInformation and\n             res.pfb.fmt != DEP_RES.MoreInformation)):\n            error = \"expected", "if ((res.pfb.fmt != DEP_RES.LastInformation or\n             res.pfb.fmt != DEP_RES.MoreInformation)):\n            error = \"expected"),
     ("dep_ini_nak_chk", "NACK not rejected", "if res.pfb.fmt == DEP_RES.NegativeAck:", "if res.pfb.fmt == DEP_RES.TimeoutExtension:"),
     ("dep_ini_atn_chk", "RTOX accepted as attention response", "if res.pfb.fmt != DEP_RES.Attention:", "if res.pfb.fmt not in (DEP_RES.Attention, DEP_RES.TimeoutExtension):"),
+    ("dep_tgt_dep_dispatch", "duplicate detection compares with the next packet number", "elif req.pfb.pni == self.pni:", "elif req.pfb.pni == self.pni + 1:"),
+    ("dep_tgt_dep_dispatch", "NAK answered with a fresh attention instead of the saved response",
+     "elif req.pfb.fmt == DEP_REQ.NegativeAck:\n                    res = dep_res", "elif req.pfb.fmt == DEP_REQ.NegativeAck:\n                    res = ATN(self.did, self.nad)"),
+    ("dep_tgt_dep_dispatch", "repeated RTOX request handed to exchange (F41 as found)",
+     "if (dep_res is not None and\n                            dep_res.pfb.fmt == DEP_RES.TimeoutExtension):", "if True:"),
+    ("dep_atr_req_decode", "minimum length", "if len(data) < 16:", "if len(data) < 15:"),
+    ("dep_atr_req_decode", "general bytes flag", "gb = data[16:] if pp & 0x02 else bytearray()\n            return ATR_REQ", "gb = data[16:] if pp & 0x01 else bytearray()\n            return ATR_REQ"),
+    ("dep_atr_res_decode", "general bytes offset", "gb = data[17:] if pp & 0x02", "gb = data[16:] if pp & 0x02"),
+    ("dep_atr_res_decode", "TO and PP swapped", "(did, bs, br, to, pp) = data[2:12], data[12:17]", "(did, bs, br, pp, to) = data[2:12], data[12:17]"),
+    ("dep_ini_retrans_chk", "ACK never accepted after a NACK (F27 as found)", "if req.pfb.fmt == DEP_REQ.MoreInformation:", "if req.pfb.fmt == DEP_REQ.NegativeAck:"),
+    ("dep_tgt_ack_chk", "chaining accepts any answer", "if more:\n                    if req.pfb.fmt is not DEP_REQ.PositiveAck:", "if not more:\n                    if req.pfb.fmt is not DEP_REQ.PositiveAck:"),
+    ("dep_dep_req_decode", "DID and NAD flags swapped", "bool(pfb & 8), bool(pfb & 4)", "bool(pfb & 4), bool(pfb & 8)"),
+    ("dep_dep_req_decode", "packet number mask", "pfb & 3)", "pfb & 7)"),
+    ("dep_dep_res_decode", "NAD read before DID", "did = data.pop(0) if pfb.did else None\n                nad = data.pop(0) if pfb.nad else None", "nad = data.pop(0) if pfb.nad else None\n                did = data.pop(0) if pfb.did else None"),
+    ("dep_dep_res_decode", "IndexError not converted", "except IndexError:\n                errstr = \"invalid format of the \" + cls.PDU_NAME", "except KeyError:\n                errstr = \"invalid format of the \" + cls.PDU_NAME"),
+    ("dep_dep_req_encode", "NAD octet in front of the DID octet", "        if self.pfb.did:\n            data.append(self.did)\n        if self.pfb.nad:\n            data.append(self.nad)", "        if self.pfb.nad:\n            data.append(self.nad)\n        if self.pfb.did:\n            data.append(self.did)"),
+    ("dep_dep_res_encode", "PDU type position", "(pfb.fmt << 4)", "(pfb.fmt << 5)"),
+    ("dep_dep_res_encode", "DID flag bit", "(pfb.did << 2)", "(pfb.did << 1)"),
     ("dep_tgt_sensf", "SENSF_RES carries NFCID3 octets 1..8", "nfcid3t[0:8]", "nfcid3t[1:9]"),
     ("dep_ini_miu", "header size", "atr_res.lr-3", "atr_res.lr-2"),
     ("dep_ini_miu", "NAD octet not counted", "- int(self.nad is not None))", "- int(self.nad is None))"),
